@@ -676,6 +676,280 @@ fn run_seq(bidi: bool, seq: &[Op]) -> (Vec<String>, Vec<Op>, u64) {
     (viol, executed, pairs)
 }
 
+// ---------------------------------------------------------------------------------------------
+// lossy schedules: invariants every application may rely on whatever the network does
+// ---------------------------------------------------------------------------------------------
+
+#[derive(Clone, Copy, Debug, PartialEq, Eq)]
+enum LOp {
+    Write,
+    Finish,
+    Reset,
+    StoppedQ,
+    SRead,
+    SReadU,
+    SStop,
+    /// both sides emit what they have queued (nothing is delivered)
+    Flush,
+    /// one world event: the next delivery or the next timer
+    Step,
+    /// the next queued datagram is lost
+    Drop,
+    /// everything is carried until the world is quiet
+    Net,
+}
+
+const LOSSY_OPS: [LOp; 11] = [LOp::Write, LOp::Finish, LOp::Reset, LOp::StoppedQ, LOp::SRead, LOp::SReadU, LOp::SStop, LOp::Flush, LOp::Step, LOp::Drop, LOp::Net];
+
+/// What the sending application knows about its stream from return values and events alone.
+#[derive(Default)]
+struct Known {
+    written: u64,
+    finish_ok: bool,
+    reset_ok: bool,
+    finished_evt: u32,
+    stop_code: Option<u64>,
+    read: u64,
+    read_end: bool,
+    read_reset: bool,
+    recv_stop_called: bool,
+}
+
+fn lossy_case(seed: u64, trace: bool) -> CaseOut {
+    let mut r = Rng::new(seed ^ 0xC11);
+    let mut out = CaseOut::default();
+    let bidi = r.chance(40);
+    let Some(mut sys) = Sys::new(bidi) else {
+        out.viol.push(Violation { prop: "HARNESS", msg: "could not set up a connected pair".into() });
+        return out;
+    };
+    let mut k = Known::default();
+    let mut hist: Vec<String> = vec![];
+    let mut viol: Vec<String> = vec![];
+    let len = 8 + r.usize(30);
+    let sync = |sys: &mut Sys, k: &mut Known, viol: &mut Vec<String>, hist: &Vec<String>| {
+        sys.collect_events();
+        if sys.c_finished > k.finished_evt {
+            if !k.finish_ok {
+                viol.push(format!("after {hist:?}: Finished event without a successful finish()"));
+            }
+            if k.reset_ok {
+                viol.push(format!("after {hist:?}: Finished event after a successful reset()"));
+            }
+            if sys.c_finished > 1 {
+                viol.push(format!("after {hist:?}: Finished event x{}", sys.c_finished));
+            }
+            k.finished_evt = sys.c_finished;
+        }
+        if let Some(&c) = sys.c_stopped.first() {
+            k.stop_code.get_or_insert(c);
+        }
+    };
+    // a third of the schedules start by separating the data from the FIN and losing one of the two
+    // datagrams, then mostly single events and resets
+    let focused = r.chance(33);
+    let mut prefix = vec![];
+    if focused {
+        prefix.extend([LOp::Write, LOp::Flush]);
+        if r.chance(30) {
+            prefix.extend([LOp::Write, LOp::Flush]);
+        }
+        prefix.extend([LOp::Finish, LOp::Flush]);
+        if r.chance(70) {
+            prefix.push(LOp::Drop);
+        } else {
+            prefix.extend([LOp::Step, LOp::Drop]);
+        }
+    }
+    const TAIL_OPS: [LOp; 9] = [LOp::Step, LOp::Step, LOp::Step, LOp::Step, LOp::Reset, LOp::StoppedQ, LOp::SRead, LOp::Flush, LOp::Write];
+    for step in 0..len {
+        let op = if step == len - 1 {
+            LOp::Net
+        } else if step < prefix.len() {
+            prefix[step]
+        } else if focused {
+            *r.pick(&TAIL_OPS)
+        } else {
+            *r.pick(&LOSSY_OPS)
+        };
+        let res: String = match op {
+            LOp::Write => {
+                let g = sys.write(false);
+                // (events queued before this call are part of what the application may know)
+                sync(&mut sys, &mut k, &mut viol, &hist);
+                match g.as_str() {
+                    "ClosedStream" => {
+                        if !(k.finish_ok || k.reset_ok) {
+                            viol.push(format!("after {hist:?}: write() -> ClosedStream although the stream was neither finished nor reset by this application"));
+                        }
+                    }
+                    "Blocked" => {}
+                    s if s.starts_with("Stopped(") => {
+                        out.cnt.inc("c11.lossy.stopped_seen");
+                    }
+                    s if s.starts_with("Ok(") => {
+                        if k.finish_ok || k.reset_ok {
+                            viol.push(format!("after {hist:?}: write() accepted data after finish()/reset()"));
+                        }
+                        k.written += s[3..s.len() - 1].parse::<u64>().unwrap_or(0);
+                    }
+                    _ => {}
+                }
+                g
+            }
+            LOp::Finish => {
+                let g = sys.finish(false);
+                sync(&mut sys, &mut k, &mut viol, &hist);
+                match g.as_str() {
+                    "Ok" => {
+                        if k.finish_ok || k.reset_ok {
+                            viol.push(format!("after {hist:?}: finish() succeeded after finish()/reset()"));
+                        }
+                        k.finish_ok = true;
+                    }
+                    "ClosedStream" => {
+                        if !(k.finish_ok || k.reset_ok) {
+                            viol.push(format!("after {hist:?}: finish() -> ClosedStream although the stream was neither finished nor reset by this application"));
+                        }
+                    }
+                    _ => {}
+                }
+                g
+            }
+            LOp::Reset => {
+                let g = sys.reset(false, C_RESET);
+                sync(&mut sys, &mut k, &mut viol, &hist);
+                out.cnt.inc("c11.lossy.resets");
+                match g.as_str() {
+                    "Ok" => {
+                        if k.reset_ok {
+                            viol.push(format!("after {hist:?}: a second reset() succeeded"));
+                        }
+                        if k.finished_evt > 0 {
+                            viol.push(format!("after {hist:?}: reset() succeeded after the Finished event"));
+                        }
+                        if k.finish_ok {
+                            out.cnt.inc("c11.lossy.reset_after_finish_ok");
+                        }
+                        k.reset_ok = true;
+                    }
+                    _ => {
+                        // the sending half is gone only once it was reset, or once everything
+                        // including the FIN was acknowledged - which the Finished event reports
+                        if !(k.reset_ok || k.finished_evt > 0) {
+                            viol.push(format!("after {hist:?}: reset() -> ClosedStream although the stream was not reset before and no Finished event was reported (finish() called: {})", k.finish_ok));
+                        }
+                        if k.finish_ok {
+                            out.cnt.inc("c11.lossy.reset_after_finish_closed");
+                        }
+                    }
+                }
+                g
+            }
+            LOp::StoppedQ => {
+                let g = sys.stopped_q(false);
+                sync(&mut sys, &mut k, &mut viol, &hist);
+                if g == "ClosedStream" && !(k.reset_ok || k.finished_evt > 0) {
+                    viol.push(format!("after {hist:?}: stopped() -> ClosedStream on a stream that is neither reset nor finished-and-acknowledged"));
+                }
+                g
+            }
+            LOp::SRead | LOp::SReadU => {
+                let g = sys.read(true, op == LOp::SRead);
+                if let Some(n) = g.strip_prefix("Data(").and_then(|x| x.split(')').next()).and_then(|x| x.parse::<u64>().ok()) {
+                    k.read += n;
+                }
+                if k.read > k.written {
+                    viol.push(format!("after {hist:?}: receiver read {} bytes, {} were written", k.read, k.written));
+                }
+                if g.ends_with("End") {
+                    if !k.finish_ok {
+                        viol.push(format!("after {hist:?}: receiver reached the end of a stream that was never finished"));
+                    } else if k.read != k.written && !k.read_end {
+                        viol.push(format!("after {hist:?}: receiver reached the end after {} of {} bytes", k.read, k.written));
+                    }
+                    k.read_end = true;
+                }
+                if g.contains("Reset(") {
+                    if !k.reset_ok {
+                        viol.push(format!("after {hist:?}: receiver saw {g} but the sender's reset() never succeeded"));
+                    } else if !g.contains(&format!("Reset({C_RESET})")) {
+                        viol.push(format!("after {hist:?}: receiver saw {g}, the sender reset with {C_RESET}"));
+                    }
+                    k.read_reset = true;
+                }
+                g
+            }
+            LOp::SStop => {
+                let g = sys.stop(true, S_STOP);
+                if g == "Ok" {
+                    k.recv_stop_called = true;
+                }
+                g
+            }
+            LOp::Flush => {
+                sys.flush();
+                "-".into()
+            }
+            LOp::Step => {
+                sys.w.step();
+                "-".into()
+            }
+            LOp::Drop => {
+                if sys.w.net.q.pop().is_some() {
+                    out.cnt.inc("c11.lossy.dropped");
+                }
+                "-".into()
+            }
+            LOp::Net => {
+                sys.settle();
+                "-".into()
+            }
+        };
+        sync(&mut sys, &mut k, &mut viol, &hist);
+        if let (Some(c), Some(&seen)) = (k.stop_code, sys.c_stopped.first()) {
+            if c != seen || (k.recv_stop_called && seen != S_STOP) {
+                viol.push(format!("after {hist:?}: Stopped code {seen}, the receiver stopped with {S_STOP}"));
+            }
+            if !k.recv_stop_called {
+                viol.push(format!("after {hist:?}: Stopped({seen}) reported but the receiver never stopped the stream"));
+            }
+        }
+        hist.push(format!("{op:?}->{res}"));
+        out.cnt.inc("c11.lossy.ops");
+        if !viol.is_empty() {
+            break;
+        }
+    }
+    // the sequence ends with a quiet world: a finished stream that was not reset is acknowledged
+    if viol.is_empty() {
+        sys.settle();
+        sys.settle();
+        sync(&mut sys, &mut k, &mut viol, &hist);
+        if k.finish_ok && !k.reset_ok && k.stop_code.is_none() && !k.recv_stop_called && k.finished_evt != 1 {
+            viol.push(format!("after {hist:?} and a quiet network: finish() succeeded, nobody reset or stopped the stream, Finished events: {}", k.finished_evt));
+        }
+    }
+    for v in sys.w.all_violations() {
+        viol.push(format!("after {hist:?}: [{}] {}", v.prop, v.msg));
+    }
+    if crate::check::common::any_lost(&sys.w) {
+        let reasons: Vec<String> = sys.w.eps.iter().flat_map(|e| e.conns.values().flat_map(|c| c.app.lost.clone())).collect();
+        viol.push(format!("after {hist:?}: connection lost {reasons:?}"));
+    }
+    out.cnt.inc("c11.lossy.sequences");
+    out.nontrivial = true;
+    out.fp = fingerprint(&[&hist.join(",")], &[bidi as u64]);
+    for m in viol {
+        out.viol.push(Violation { prop: "C11", msg: format!("[lossy] {m}") });
+    }
+    out.sample = Some(json!({"bidi": bidi, "history": hist}));
+    if trace {
+        out.trace = Some(vec![format!("history {hist:?}")]);
+    }
+    out
+}
+
 fn decode_seq(mut idx: u64, alphabet: &[Op], depth: usize) -> Vec<Op> {
     let n = alphabet.len() as u64;
     let mut v = Vec::with_capacity(depth);
@@ -734,20 +1008,23 @@ pub fn run(ctx: &Ctx) -> i32 {
         }
         case_out(bidi, seq, trace)
     });
+    // lossy schedules
+    let g = Group { name: "lossy", cases: ctx.tier.pick(40_000, 2_000_000), budget_s: ctx.tier.pick(15.0, 300.0), exhaustive: false };
+    run_group(ctx, &mut rep, &g, |_, seed, trace| lossy_case(seed, trace));
     rep.extra.insert("exhaustive_depth".into(), json!({"uni": d_uni, "bidi": d_bi, "uni_sequences": n_uni, "bidi_sequences": n_bi}));
     finish(
         ctx,
         &rep,
         Finish {
             level: "exploration",
-            rule: format!("every sequence of length {d_uni} over an 11-operation alphabet on a client-initiated unidirectional stream ({n_uni} sequences) and of length {d_bi} over a 19-operation alphabet on a bidirectional one ({n_bi}), plus random sequences of length 6..40: client write/finish/reset/stopped()/set_priority, server accept/read(ordered)/read(unordered)/stop/received_reset, (bidi) the mirrored operations in the other direction, and a move that carries all datagrams until the world is quiet. Each is run on a fresh connected plaintext-lane pair and on the reference model in lock step; compared after every operation: the return value class (Ok(n), Blocked, Stopped(c), ClosedStream, Data(n)+End/Blocked/Reset(c), IllegalOrderedRead), Finished/Stopped event multisets on both sides, events for unused streams, and the server's remote_open_streams. Distinct = distinct executed operation sequences."),
+            rule: format!("every sequence of length {d_uni} over an 11-operation alphabet on a client-initiated unidirectional stream ({n_uni} sequences) and of length {d_bi} over a 19-operation alphabet on a bidirectional one ({n_bi}), plus random sequences of length 6..40: client write/finish/reset/stopped()/set_priority, server accept/read(ordered)/read(unordered)/stop/received_reset, (bidi) the mirrored operations in the other direction, and a move that carries all datagrams until the world is quiet. Each is run on a fresh connected plaintext-lane pair and on the reference model in lock step; compared after every operation: the return value class (Ok(n), Blocked, Stopped(c), ClosedStream, Data(n)+End/Blocked/Reset(c), IllegalOrderedRead), Finished/Stopped event multisets on both sides, events for unused streams, and the server's remote_open_streams. Distinct = distinct executed operation sequences. (lossy) random sequences of 8..38 moves on one stream where the network moves are: both sides emit, one world event (a delivery or a timer), the next queued datagram is lost, carry everything. No model of the wire state is possible there, so the oracle is what the two applications can know from return values and events alone: write/finish/reset/stopped() report ClosedStream only after this application finished or reset the stream (reset and stopped(): only after a reset or the Finished event - data outstanding behind an acknowledged FIN keeps the half open), Finished at most once, only after finish() and never after a successful reset(), the receiver never reads more than was written, reaches the end only of a finished stream after all bytes, sees a reset only if reset() succeeded and with its code, Stopped only with the receiver's code; after a final quiet network a finished, untouched stream has reported Finished."),
             assumptions: vec![
                 "operations take no virtual time; a network move delivers what was queued by earlier operations before the acknowledgements it triggers, which makes STOP_SENDING-vs-ACK races deterministic".into(),
                 "windows are large enough that writes never block".into(),
             ],
             min_evals: ctx.tier.pick(50_000, 1_000_000),
             min_nontrivial: ctx.tier.pick(30_000, 500_000),
-            required: vec!["c11.ops_compared", "c11.op.Net", "c11.op.SReadU", "c11.op.CReset", "c11.op.SStop", "c11.op.SFinish", "c11.op.CResetQ"],
+            required: vec!["c11.lossy.dropped", "c11.lossy.reset_after_finish_ok", "c11.ops_compared", "c11.op.Net", "c11.op.SReadU", "c11.op.CReset", "c11.op.SStop", "c11.op.SFinish", "c11.op.CResetQ"],
             exhaustive: false,
         },
         t.elapsed().as_secs_f64(),
